@@ -113,6 +113,7 @@ def run(res, tier):
     units = [("vec", v, ids, labels) for v, labels in vs]
     seam_vs = _c03.special_vectors() + [[str(t), str(10 - t)] for t in range(0, 11)] + [["100.0", "100.0004"], ["100.0004", "100.0006"], ["0.1234567", "0.7654321"],
                                                                                        ["1000000.5", "1000000.25", "3.000001"]]
+    seam_vs += [v for _k, v in _c03.crafted_vectors()]  # boundary a quarter grid point after a chosen position, exact in binary64
     units += [("seam", v) for v in seam_vs]
     merged = {}
     for w in pmap(_work, permuted(units, "c10"), chunk=12):
